@@ -330,7 +330,12 @@ class Lexer:
                     "Unclosed tag: <%%%s>" % self.tag[-1].keyword,
                     **self.exception_kwargs,
                 )
-            self.append_node(parsetree.Text, match.group(1))
+            if match.end() == match.start():
+                # an empty body: match_reg() has stepped over one
+                # character of the closing tag, step back
+                self.match_position = match.end()
+            else:
+                self.append_node(parsetree.Text, match.group(1))
             return self.match_tag_end()
         return True
 
